@@ -454,7 +454,8 @@ class TimestampingFileWriterSession(BaseFileWriterSession):
 
         _logger.debug('Checking for last modified={0}.', modified_time)
 
-        if modified_time:
+        if modified_time and hasattr(request, 'fields'):
+            # Only a HTTP request has header fields.
             date_str = email.utils.formatdate(modified_time)
 
             request.fields['If-Modified-Since'] = date_str
